@@ -38,6 +38,6 @@ WriterAgrees ==
 ReaderAgrees ==
   \A p \in 0..(Len(w.buf) + 1), k \in {0, 1, 3, 9} :
     /\ RSeq(w.buf, [pos |-> p, on |-> FALSE, rem |-> 0], k) = RSeqRef(w.buf, [pos |-> p, on |-> FALSE, rem |-> 0], k)
-    /\ \A m \in -2..10 :
+    /\ \A m \in {-2, 0, 1, 2, 5, 10} :
          RSeq(w.buf, [pos |-> p, on |-> TRUE, rem |-> m], k) = RSeqRef(w.buf, [pos |-> p, on |-> TRUE, rem |-> m], k)
 =============================================================================
